@@ -67,7 +67,7 @@ def cases(tier):
                         progs.append({'start': st, 'roots': [['a', p + [['SCOPE', 's', [['DO', 'k1', c1, o1]] + body_tail],
                                                                         ['PROBE', 'now']]]]})
                     for o2 in opts:
-                        for c2 in (child_scripts if thorough else child_scripts[:5]):
+                        for c2 in (child_scripts[:20] if thorough else child_scripts[:5]):
                             progs.append({'start': st, 'roots': [['a', p + [
                                 ['SCOPE', 's', [['DO', 'k1', c1, o1], ['DO', 'k2', c2, o2]]], ['PROBE', 'now']]]]})
     # family C: until(delay | date) around scripts, next to a second activity
